@@ -114,3 +114,60 @@ Example c06_float_rebase_premise :
   Safe 53 1024 p64 m64 (change_base_tree 53 1024 p64 m64 LibStd
      (map ev [ELit 1 (-2); ELit 1 (-3); ELit 1 0]) (map ev [ELit 1 3; ELit 1 (-3); ELit 36 2]) [1; 0; -1]%Z (of_lit 53 1024 p64 m64 25 (-1))).
 Proof. cbv zeta. apply safe64_sound. vm_compute. reflexivity. Qed.
+
+(* ---- value accuracy of mixed-base arithmetic on floats (any precision, either power algorithm) ----
+   B = the exact re-basing of the right operand, n = operations of change_base, E = H^n - 1.
+   a + b, a - b: |result - (a +/- B)| <= u |a +/- B| + (1 + u) E |B|  (absolute: the two terms may cancel);
+   a * b, a / b: within H^(n+1) - 1 relative of a * B, a / B. *)
+From UomV Require Import Proofs.MixedArith Model.Quantity Model.Storages.
+Theorem c06_float_mixed_addsub_accuracy :
+  forall prec emax (Hprec : Prec_gt_0 prec) (Hmax : Prec_lt_emax prec emax) lib (sub : bool)
+         (Ul Ur : list (binary_float prec emax)) (d : list Z) (a b : binary_float prec emax),
+    let t := change_base_tree prec emax Hprec Hmax lib Ul Ur d b in
+    let E := (H prec ^ ops prec emax t - 1)%R in
+    let B := rebase_R prec emax Hprec Hmax lib Ul Ur d b in
+    let b' := change_base (CFfloat prec emax Hprec Hmax lib) Ul Ur d b in
+    let X := (if sub then B2R a - B else B2R a + B)%R in
+    let res := q_bin (StF prec emax Hprec Hmax lib) (if sub then fsub prec emax Hprec Hmax else fadd prec emax Hprec Hmax) true Ul Ur d a b in
+    Safe prec emax Hprec Hmax t -> is_finite a = true ->
+    normal prec emax (if sub then B2R a - B2R b' else B2R a + B2R b')%R ->
+    is_finite res = true /\ (Rabs (B2R res - X) <= u prec * Rabs X + (1 + u prec) * E * Rabs B)%R.
+Proof.
+  intros prec emax Hprec Hmax lib sub Ul Ur d a b t E B b' X res St Fa Nrm.
+  exact (mixed_addsub_abserr prec emax Hprec Hmax lib sub Ul Ur d a b St Fa Nrm).
+Qed.
+
+Theorem c06_float_mixed_muldiv_accuracy :
+  forall prec emax (Hprec : Prec_gt_0 prec) (Hmax : Prec_lt_emax prec emax) lib (dv : bool)
+         (Ul Ur : list (binary_float prec emax)) (d : list Z) (a b : binary_float prec emax),
+    let t := change_base_tree prec emax Hprec Hmax lib Ul Ur d b in
+    let t' := if dv then Div prec emax (Leaf prec emax a) t else Mul prec emax (Leaf prec emax a) t in
+    let B := rebase_R prec emax Hprec Hmax lib Ul Ur d b in
+    let X := (if dv then B2R a / B else B2R a * B)%R in
+    let res := q_bin (StF prec emax Hprec Hmax lib) (if dv then fdiv prec emax Hprec Hmax else fmul prec emax Hprec Hmax) true Ul Ur d a b in
+    Safe prec emax Hprec Hmax t' ->
+    is_finite res = true /\ (Rabs (B2R res - X) <= (H prec ^ S (ops prec emax t) - 1) * Rabs X)%R.
+Proof.
+  intros prec emax Hprec Hmax lib dv Ul Ur d a b t t' B X res St.
+  exact (mixed_muldiv_relerr prec emax Hprec Hmax lib dv Ul Ur d a b St).
+Qed.
+
+(* non-vacuity: 1.5 (cm/s, cgs base) + 2.5 (km/h base re-based into cgs), and their product tree *)
+Example c06_float_mixed_premises :
+  let ev := eval_f 53 1024 p64 m64 in
+  let Ul := map ev [ELit 1 (-2); ELit 1 (-3); ELit 1 0] in let Ur := map ev [ELit 1 3; ELit 1 (-3); ELit 36 2] in
+  let d := [1; 0; -1]%Z in
+  let a := of_lit 53 1024 p64 m64 15 (-1) in let b := of_lit 53 1024 p64 m64 25 (-1) in
+  let t := change_base_tree 53 1024 p64 m64 LibStd Ul Ur d b in
+  Safe 53 1024 p64 m64 t /\ is_finite a = true
+  /\ normal 53 1024 (B2R a + B2R (change_base (CFfloat 53 1024 p64 m64 LibStd) Ul Ur d b))%R
+  /\ normal 53 1024 (B2R a - B2R (change_base (CFfloat 53 1024 p64 m64 LibStd) Ul Ur d b))%R
+  /\ Safe 53 1024 p64 m64 (Mul 53 1024 (Leaf 53 1024 a) t) /\ Safe 53 1024 p64 m64 (Div 53 1024 (Leaf 53 1024 a) t).
+Proof.
+  cbv zeta.
+  split; [apply safe64_sound; vm_compute; reflexivity|].
+  split; [vm_compute; reflexivity|].
+  split; [apply normal64_add; vm_compute; reflexivity|].
+  split; [apply normal64_sub; vm_compute; reflexivity|].
+  split; apply safe64_sound; vm_compute; reflexivity.
+Qed.
